@@ -14,13 +14,16 @@
      sources (all stages except Unfold, Emit and Throttling's pacer) the internal step relation [istep] - worker
      steps with either resolution of a select, and the closer - is well-founded from EVERY state, reachable or
      not: between two environment events (send, close, receive, cancel, gate release, clock advance) the
-     goroutines of the stage take only finitely many steps.  For generator stages this is not a theorem (their
-     rounds end in a send that needs room or in a timer; argued in DESIGN.md 5).
+     goroutines of the stage take only finitely many steps.  For stages WITH generator sources the same holds
+     (C06_internal_steps_terminate_gen) when every round of a generator contains a blocker - a send on an
+     output 0..K-1 (needs room), a timer of positive duration or a return - and no token receive; this covers
+     Unfold, Emit and Throttling with ops >= 1 or interval > 0 (C06_generator_stages_terminate); without a
+     blocker a generator does spin (pacer_without_blocker_spins in Pipe/PoolVariantStages.v).
    That runs reach the quiescent states (the scheduler lets enabled goroutines run) is scheduler fairness. *)
 From Coq Require Import List ZArith.
 From Golem Require Import Base.Lists Pipe.Pool Pipe.Stages Pipe.PoolSteps Pipe.PoolSafe Pipe.PoolClosed Pipe.PoolLive
      Pipe.PoolSimple Pipe.PoolSeq Pipe.PoolStages Pipe.PoolStages2 Pipe.PoolErr Pipe.PoolMultiStages Pipe.PoolGen Pipe.PoolCancel
-     Pipe.PoolVariant.
+     Pipe.PoolVariant Pipe.PoolVariantGen Pipe.PoolVariantStages.
 Import ListNotations.
 Open Scope Z_scope.
 
@@ -176,3 +179,27 @@ Theorem C06_no_infinite_internal_run : forall (c : cfg),
   forall f : nat -> state, ~ (forall n, istep c (f n) (f (S n))).
 Proof. exact no_infinite_internal_run. Qed.
 Print Assumptions C06_no_infinite_internal_run.
+
+(* NO LIVELOCK with generators: every plan of a generator worker contains a blocker ([hasb K]: a send on one of
+   the outputs 0..K-1, a timer of positive duration, or a return) and no token receive *)
+Theorem C06_internal_steps_terminate_gen : forall (c : cfg) (K : nat),
+  (forall w l a, (w < par c)%nat -> src c w = SGen ->
+     hasb K (fst (plan c w l a)) = true /\ ntokl (fst (plan c w l a)) = 0%nat) ->
+  forall s : state, Acc (fun s' s0 => istep c s0 s') s.
+Proof. exact internal_steps_terminate_gen. Qed.
+Print Assumptions C06_internal_steps_terminate_gen.
+
+(* ... which the generator stages satisfy *)
+Theorem C06_generator_stages_terminate :
+  forall (f : Z -> res) (try : bool) (seed : Z) (freq : N) (ops : nat) (interval : N) (icaps ocaps : list nat) (s : state),
+  Acc (fun s' s0 => istep (unfold_cfg f try seed ocaps) s0 s') s /\
+  Acc (fun s' s0 => istep (emit_cfg freq f try ocaps) s0 s') s /\
+  ((1 <= ops)%nat \/ (0 < interval)%N -> Acc (fun s' s0 => istep (throttle_stage ops interval icaps ocaps) s0 s') s).
+Proof. exact generator_stages_terminate. Qed.
+Print Assumptions C06_generator_stages_terminate.
+
+(* the blocker hypothesis is needed: a pacer with ops = 0 and interval = 0 spins *)
+Theorem C06_generator_without_blocker_spins :
+  let c := throttle_stage 0 0 [] [] in ~ Acc (fun s' s0 => istep c s0 s') (init c).
+Proof. exact pacer_without_blocker_spins. Qed.
+Print Assumptions C06_generator_without_blocker_spins.
